@@ -41,6 +41,17 @@ fn rbf(a: &Value, c: u64) -> Value {
     json!({"k": "rbf", "a": a, "c": {"k": "scalar", "c": c}})
 }
 
+/// request bound of a callback with an optional cumulative-cost curve (w empty = scalar c)
+fn rbf_w(a: &Value, c: u64, w: &[u64]) -> Value {
+    if w.is_empty() {
+        rbf(a, c)
+    } else if c % 2 == 0 {
+        json!({"k": "rbf", "a": a, "c": {"k": "wcurve", "w": w}})
+    } else {
+        json!({"k": "rbf", "a": a, "c": {"k": "wxcurve", "of": {"k": "wcurve", "w": w}}})
+    }
+}
+
 fn dm(v: Value) -> Value {
     json!({ "dm": v })
 }
@@ -67,6 +78,9 @@ pub fn state_estimate(cbs: &[Value], supply: &Value) -> f64 {
         };
         let r = c["R"].as_i64().unwrap().max(1) as f64;
         est *= (r + 1.0).powf((u(&c["cap"]) - 1) as f64 * 0.7);
+        if let Some(w) = c.get("w").and_then(|w| w.as_array()) {
+            est *= (u(&c["C"]) as f64).powf(w.len().saturating_sub(1) as f64);
+        }
     }
     if kind(supply) != "dedicated" {
         est *= (u(&supply["P"]) * u(&supply["Q"])) as f64;
@@ -94,23 +108,38 @@ fn ecrts19(ctx: &mut Ctx, id: u64, lim: u64, tmax: u64, cmax: u64, pmax: u64, ch
         c: u64,
         succ: usize,
         chain: bool,
+        w: Vec<u64>,
     }
+    // a third of the unchained callbacks get a cumulative-cost curve (any n consecutive instances cost <= w[n])
+    let mut gen_w = |rng: &mut rand::rngs::StdRng, cmax: u64| -> Vec<u64> {
+        if rng.gen_bool(0.33) {
+            let mut w = crate::gen::cost_prefix(rng, cmax);
+            w.truncate(3);
+            w
+        } else {
+            vec![]
+        }
+    };
     let mut cbs: Vec<Cb> = vec![];
     // periods scale with the number of callbacks so that most workloads are not overloaded
     let ncb = (nt + np + chain_len) as u64;
     let tmin = (ncb * cmax).saturating_sub(1).max(2);
     let tmax = tmin + tmax.min(3);
     for _ in 0..nt {
-        cbs.push(Cb { t: "timer", a: Some(gen_arr(&mut ctx.rng, tmin, tmax)), c: ctx.rng.gen_range(1..=cmax), succ: 0, chain: false });
+        let w = gen_w(&mut ctx.rng, cmax);
+        let c = if w.is_empty() { ctx.rng.gen_range(1..=cmax) } else { w[0] };
+        cbs.push(Cb { t: "timer", a: Some(gen_arr(&mut ctx.rng, tmin, tmax)), c, succ: 0, chain: false, w });
     }
     for _ in 0..np {
-        cbs.push(Cb { t: "polled", a: Some(gen_arr(&mut ctx.rng, tmin, tmax)), c: ctx.rng.gen_range(1..=cmax), succ: 0, chain: false });
+        let w = gen_w(&mut ctx.rng, cmax);
+        let c = if w.is_empty() { ctx.rng.gen_range(1..=cmax) } else { w[0] };
+        cbs.push(Cb { t: "polled", a: Some(gen_arr(&mut ctx.rng, tmin, tmax)), c, succ: 0, chain: false, w });
     }
     let chain_start = cbs.len();
     for k in 0..chain_len {
         let a = if k == 0 { Some(gen_arr(&mut ctx.rng, tmin, tmax + 2)) } else { None };
         let succ = if k + 1 < chain_len { chain_start + k + 2 } else { 0 };
-        cbs.push(Cb { t: "polled", a, c: ctx.rng.gen_range(1..=cmax), succ, chain: true });
+        cbs.push(Cb { t: "polled", a, c: ctx.rng.gen_range(1..=cmax), succ, chain: true, w: vec![] });
     }
     // shuffle polled priorities (index order among polled = priority): chain members may be anywhere
     let n = cbs.len();
@@ -122,7 +151,7 @@ fn ecrts19(ctx: &mut Ctx, id: u64, lim: u64, tmax: u64, cmax: u64, pmax: u64, ch
     let chain_a = if chain_len > 0 { cbs[chain_start].a.clone() } else { None };
     let chain_total: u64 = cbs[chain_start..].iter().map(|c| c.c).sum();
     // chain-level / callback-level RBFs of "everything except X"
-    let unit_rbf = |i: usize| rbf(cbs[i].a.as_ref().unwrap(), cbs[i].c);
+    let unit_rbf = |i: usize| rbf_w(cbs[i].a.as_ref().unwrap(), cbs[i].c, &cbs[i].w);
     let mut claims: Vec<i64> = vec![-1; n];
     let mut calls = vec![];
     let h = 2 * lim + 4;
@@ -187,7 +216,7 @@ fn ecrts19(ctx: &mut Ctx, id: u64, lim: u64, tmax: u64, cmax: u64, pmax: u64, ch
         let cap = cap_of(ctx, src_a, claims[i]);
         let arr = if cbs[i].chain && i != chain_start { json!({"k": "chain"}) } else { arr_of(src_a) };
         out_cbs.push(json!({"t": cbs[i].t, "prio": prio[i], "arr": arr, "succ": cbs[i].succ, "C": cbs[i].c,
-                            "R": claims[i], "cap": cap}));
+                            "R": claims[i], "cap": cap, "w": cbs[i].w}));
     }
     if !fits(ctx, &out_cbs, &supply) {
         return;
@@ -263,11 +292,49 @@ fn rtss21(ctx: &mut Ctx, id: u64, lim: u64, tmax: u64, cmax: u64, pmax: u64) {
     }
 }
 
+/// The input of finding F15 as an executor workload: the polled callback X (Periodic(7), cost curve [3,4]) next to two
+/// polled callbacks of cost 2 (Sporadic(7,0) and the curve [5,10,20,30]) on a dedicated processor, in every priority
+/// position of X.  The bound claimed for X is what rta_polling_point_callback returns (7, the steps-only value).
+fn f15_example(ctx: &mut Ctx) {
+    let lim = 44u64;
+    let h = 2 * lim + 4;
+    let wd = ctx.watchdog_ms;
+    let supply = json!({"k": "dedicated"});
+    let ax = json!({"k": "periodic", "T": 7});
+    let ay = json!({"k": "sporadic", "T": 7, "J": 0});
+    let az = json!({"k": "xcurve", "of": {"k": "curve", "d": [5, 10, 20, 30]}});
+    let own = json!({"k": "rbf", "a": ax, "c": {"k": "wxcurve", "of": {"k": "wcurve", "w": [3, 4]}}});
+    let others = json!({"k": "rbf", "a": {"k": "sum", "a": ay, "b": az}, "c": {"k": "multiframe", "cs": [2]}});
+    let (o, ot) = match (crate::drivers::ros2::demand_rec(&own, h, wd), crate::drivers::ros2::demand_rec(&others, h, wd)) {
+        (Some(a), Some(b)) => (a, b),
+        _ => return,
+    };
+    let inp = json!({"op": "ros2_pp", "supply": supply, "lim": lim, "own": o, "others": ot});
+    let out = guarded(&inp, wd, call_ros2);
+    let r = out.get("ok").and_then(|x| x.as_i64()).unwrap_or(-1);
+    for (k, px) in [0i64, 1, 2].iter().enumerate() {
+        let mut pr = vec![0i64, 1, 2];
+        pr.retain(|p| p != px);
+        let cap = cap_of(ctx, &ax, r);
+        let cbs = json!([
+            {"t": "polled", "prio": px, "arr": arr_of(&ax), "succ": 0, "C": 3, "R": r, "cap": cap, "w": [3, 4]},
+            // no claim is checked for Y and Z; their instances do not age (the executor does not look at ages),
+            // so a backlog of several instances keeps the state space finite
+            {"t": "polled", "prio": pr[0], "arr": arr_of(&ay), "succ": 0, "C": 2, "R": -1, "cap": 4, "w": []},
+            {"t": "polled", "prio": pr[1], "arr": arr_of(&az), "succ": 0, "C": 2, "R": -1, "cap": 4, "w": []}]);
+        ctx.sink.raw(&json!({"id": 900000 + k as u64, "family": "ecrts19", "supply": supply, "cbs": cbs, "lim": lim,
+                             "calls": [{"op": "ros2_pp", "out": out}], "nontrivial": true, "chain": 0, "f15": true}));
+    }
+}
+
 pub fn run(ctx: &mut Ctx) {
     let family = ctx.arg("--family").unwrap_or("ecrts19".into());
     let nsys: u64 = ctx.arg("--nsys").and_then(|s| s.parse().ok()).unwrap_or(80);
     let (tmax, cmax, pmax, lim) = if ctx.thorough { (9, 3, 6, 60) } else { (7, 2, 4, 40) };
     let clm = if ctx.thorough { 3 } else { 2 };
+    if family == "ecrts19" && ctx.thorough {
+        f15_example(ctx); // three systems of ~1.6 M states each
+    }
     for id in 1..=nsys {
         if family == "ecrts19" {
             ecrts19(ctx, id, lim, tmax, cmax, pmax, clm);
